@@ -88,11 +88,11 @@ def b_shell(cl, mod, H, k):
 
 def line_shell(H):
     """line macro value -> excited shell index, derived from the macro's NAME"""
+    from vlib.headers import iupac_lines
     out = {}
-    for k, v in H.items():
-        m = re.fullmatch(r'(K|L1|L2|L3)[LMNOPQ]\d{0,2}_LINE', k)
-        if m and isinstance(v, int) and v < 0 and not re.fullmatch(r'(KA|KB|LA|LB)\d*_LINE', k):
-            out[v] = ['K', 'L1', 'L2', 'L3'].index(m.group(1))
+    for n, v in iupac_lines(H).items():
+        m = re.match(r'(K|L1|L2|L3)', n)
+        if m: out[v] = ['K', 'L1', 'L2', 'L3'].index(m.group(1))
     out[H['KA_LINE']] = 0; out[H['KB_LINE']] = 0; out[H['LA_LINE']] = 3
     return out
 
